@@ -216,6 +216,16 @@ func VerifC15Commands() {
 			same = want[i] == log[i]
 		}
 		zzverif.Assert(same && app.fh.focused == Widget(cur), "one-focus-out-and-one-focus-in-per-focus-change")
+		// a key arriving before the next frame already goes to the newly focused widget
+		from := len(log)
+		app.fh.handleEvent(app, vaxis.Key{Keycode: 'k'})
+		target := -1
+		for _, e := range log[from:] {
+			if e.kind == 0 && e.phase == 1 {
+				target = e.node
+			}
+		}
+		zzverif.Assert(target == cur.id, "key-after-focus-change-targets-the-focused-widget")
 	} else {
 		zzverif.Assert(len(log) == 0, "no-focus-events-without-focus-command")
 	}
